@@ -115,7 +115,14 @@ func buildHarnessHandlers(h map[string]handler) {
 		return nil
 	}
 	h[H+"Known"] = func(e *Exec, fn *ssa.Function, a []Value) Value {
-		e.regions = append(e.regions, region{key: concStrArg(a[1]), cond: a[2].(*Term)})
+		r := region{key: concStrArg(a[1]), cond: a[2].(*Term)}
+		if len(a) > 3 {
+			sl := a[3].(Slice)
+			for i := 0; i < sl.len; i++ {
+				r.only = append(r.only, concStrArg(sl.arr.elems[sl.off+i].v))
+			}
+		}
+		e.regions = append(e.regions, r)
 		return nil
 	}
 	h[H+"Cover"] = func(e *Exec, fn *ssa.Function, a []Value) Value {
